@@ -71,10 +71,13 @@ class Lin:
         return s[2:] if s.startswith("+ ") else s
 
 
-def eval_lin(e: ast.AST, env: Dict[str, Lin], app: Optional[Callable[[ast.Call, Callable], Optional[Lin]]] = None) -> Lin:
-    """Evaluate `e` to a linear form.  `app(call, rec)` may interpret a call (returning a Lin or None)."""
+def eval_lin(e: ast.AST, env: Dict[str, Lin], app: Optional[Callable[[ast.Call, Callable], Optional[Lin]]] = None,
+             scalars=()) -> Lin:
+    """Evaluate `e` to a linear form.  `app(call, rec)` may interpret a call (returning a Lin or None).
+    Names in `scalars` are scalar symbols: `s * v` and `v / s` become opaque linear maps
+    scale[s](v) / scale[1/s](v)."""
     def rec(x):
-        return eval_lin(x, env, app)
+        return eval_lin(x, env, app, scalars)
 
     if isinstance(e, ast.Name):
         if e.id in env:
@@ -86,6 +89,10 @@ def eval_lin(e: ast.AST, env: Dict[str, Lin], app: Optional[Callable[[ast.Call, 
         if isinstance(e.op, ast.Sub):
             return rec(e.left) - rec(e.right)
         if isinstance(e.op, (ast.Mult, ast.Div)):
+            if isinstance(e.op, ast.Mult) and isinstance(e.left, ast.Name) and e.left.id in scalars:
+                return rec(e.right).app("scale[%s]" % e.left.id)
+            if isinstance(e.right, ast.Name) and e.right.id in scalars:
+                return rec(e.left).app("scale[%s%s]" % ("" if isinstance(e.op, ast.Mult) else "1/", e.right.id))
             cl, cr = const(e.left), const(e.right)
             if isinstance(e.op, ast.Mult) and cl is not NOCONST and isinstance(cl, (int, float)):
                 return rec(e.right).scale(Fraction(cl).limit_denominator(10 ** 9))
